@@ -172,6 +172,24 @@ def _scores(tier):
     out.append(("three_parts_4_6_480_pickup", lambda: G.simple_score([one(4, pickup=4, pid="P1"), one(6, pickup=6, pid="P2", triplet=True), one(480, pickup=480, pid="P3", grace=True)])))
     out.append(("six_eight_divs12", lambda: G.simple_score([one(12, ts=(6, 8), pickup=6, triplet=True)])))
 
+    # divisions that do not divide the running lcm, in descending / mixed order (the ticks per quarter must be the lcm of ALL of them)
+    out.append(("two_parts_8_6", lambda: G.simple_score([one(8, pid="P1"), one(6, pid="P2", triplet=True)])))
+    out.append(("three_parts_12_8_3", lambda: G.simple_score([one(12, pid="P1", triplet=True), one(8, pid="P2"), one(3, pid="P3", tie=False)])))
+    # meters whose bar is not a whole number of quarters, with a pickup longer than the bar rounded down to quarters
+    out.append(("three_eight_pickup_two_eighths", lambda: G.simple_score([one(4, ts=(3, 8), pickup=4)])))
+    out.append(("five_eight_pickup_four_eighths", lambda: G.simple_score([one(2, ts=(5, 8), pickup=4, tie=False)])))
+
+    def with_change_12_8():
+        p = sc.Part("P1", quarter_duration=12)
+        p.set_quarter_duration(48, 8)
+        p.add(sc.TimeSignature(4, 4), 0)
+        p.add(sc.Measure(number=1), 0, 48)
+        p.add(sc.Measure(number=2), 48, 80)
+        for (nid, s, e, st, v) in (("a", 0, 16, "C", 1), ("b", 16, 44, "E", 1), ("c", 44, 51, "G", 1), ("d", 51, 80, "A", 1)):
+            p.add(sc.Note(step=st, octave=4, id=nid, voice=v, staff=1), s, e)
+        return G.simple_score([p])
+    out.append(("divisions_change_12_to_8_inside_part", with_change_12_8))
+
     def with_change():
         # divisions change inside the part: 2 -> 3 at the second barline; a note held over the change
         p = sc.Part("P1", quarter_duration=2)
